@@ -106,6 +106,10 @@ def text(op):
         return '[%s %s],%s' % (lit(op[2]), lit(op[3]), op[1])
     if k == 'find':
         return '%s?%s' % (op[1], lit(op[2]))
+    if k == 'index':            # Index with a list of keys: the list of their values
+        return '%s@,%s' % (op[1], lit(op[2]))
+    if k == 'index2':
+        return '%s@%s' % (op[1], lit(L(op[2], op[3])))
     if k == 'drop':
         return '(%s)_%s' % (lit(op[2]), op[1])
     if k == 'size':
@@ -152,6 +156,14 @@ def apply(m, op):
         if e is None:
             return ('val', U)
         return ('dict', e[1][1]) if e[1][0] == 'ref' else ('val', e[1])
+    if k in ('index', 'index2'):
+        vs = []
+        for kk in op[2:]:
+            e = m.objs[m.vars[op[1]]].get(tagkey(kk))
+            if e is None or e[1][0] == 'ref':
+                return None         # a key the dictionary does not have / a dictionary as element: not prescribed
+            vs.append(e[1])
+        return ('val', norm(L(*vs)))     # a list of numbers is one numeric block (DESIGN 2.4)
     if k == 'drop':
         m.objs[m.vars[op[1]]].pop(tagkey(op[2]), None)
         return ('dict', m.vars[op[1]])
@@ -207,7 +219,7 @@ def apply(m, op):
     raise ValueError(op)
 
 
-READS = ('find', 'size', 'each', 'ffind', 'feach', 'nfind', 'gnfind')
+READS = ('find', 'size', 'each', 'ffind', 'feach', 'nfind', 'gnfind', 'index', 'index2')
 
 
 def enabled(m, keys, vals, nest):
@@ -235,6 +247,9 @@ def enabled(m, keys, vals, nest):
                 ops.append(('addr', var, k, v))
             ops.append(('addl', var, k, vals[(keys.index(k)) % len(vals)]))
             ops.append(('find', var, k))
+            ops.append(('index', var, k))
+            if k is not ks[0]:
+                ops.append(('index2', var, k, ks[0]))
             ops.append(('drop', var, k))
         ops.append(('size', var))
         ops.append(('each', var))
